@@ -465,11 +465,15 @@ func runSeqHistory(r *vf.Run, idx int, rng *prng.R) {
 		specs[s.String()] = s
 		qrefs = append(qrefs, s.String())
 	}
+	// observation only (not an oracle clause): which (host, ref) had credentials before a step
+	had, has := map[string]bool{}, map[string]bool{}
 	sweep := func(step int) {
+		had, has = has, map[string]bool{}
 		for _, ref := range qrefs {
 			for _, host := range pool.qhosts {
 				st.queries++
 				u, s, err := creds(host, specs[ref])
+				has[host+" "+ref] = u != "" || s != ""
 				if err != nil {
 					st.errors++
 					r.Distinct("keychain_query_errors", trimNum(err.Error()))
@@ -536,6 +540,15 @@ func runSeqHistory(r *vf.Run, idx int, rng *prng.R) {
 			}
 		}
 		sweep(i)
+		if o.Kind == "remove" {
+			// removing an image by one of its names untags that name only: the credentials of
+			// its other names should survive (over-deletion is not a violation of C18, it is counted)
+			for k, v := range had {
+				if v && !has[k] && !strings.HasSuffix(k, " "+o.Norm) {
+					r.Count("keychain_credentials_of_other_names_lost_on_remove_by_name", 1)
+				}
+			}
+		}
 	}
 	r.Count("keychain_queries", st.queries)
 	r.Count("keychain_nonempty_answers", st.nonEmpty)
